@@ -30,7 +30,8 @@ RULE = ("part 'history': random histories over log / add_destinations(1-3 new de
         "add and remove destinations (and one logs) concurrently under the same scheduler, all one-preemption schedules: every "
         "destination whose add returned receives a message logged afterwards, every removed one does not, the destination registered "
         "throughout receives everything once. non-trivial = history with >=2 adds and a "
-        "remove, or >1000 buffered; schedule whose preemption fired inside Destinations.add/send; distinct by history / interleaving hash")
+        "remove, or >1000 buffered; a registration made by the first destination while the start-up buffer is being replayed into it (it returns normally, "
+        "nothing fails, the new destination receives everything logged from then on); schedule whose preemption fired inside Destinations.add/send; distinct by history / interleaving hash")
 ASSUMPTIONS = ["switch points are statement boundaries and blocking primitives (CPython granularity)",
                "a destination object may be registered twice (it is then offered every message twice)",
                "destination objects that compare equal to one another are never passed to remove_destination (removal is by equality)"]
@@ -575,6 +576,11 @@ def gen_indelivery(rng, i):
         return {"kind": "late_sink", "nprebuf": rng.choice([0, 1, 3]), "nfirst": nfirst, "drop_one_first": nfirst == 2 and rng.random() < 0.5,
                 "before": rng.randint(0, 2), "after": rng.randint(1, 3), "mode": rng.choice(["self", "thread"]), "nlate": rng.choice([1, 1, 2]),
                 "in_action": rng.random() < 0.25}
+    if i % 5 == 3 and i % 2:
+        # the registration happens while the start-up buffer is being replayed into the (only) destination of the first call
+        nprebuf = rng.randint(1, 4)
+        return {"kind": "late_sink", "nprebuf": nprebuf, "nfirst": 1, "drop_one_first": False, "before": rng.randint(0, 2), "after": rng.randint(1, 3),
+                "mode": "self", "nlate": rng.choice([1, 2]), "in_action": False, "replay_trigger": rng.randrange(nprebuf)}
     nprebuf = rng.randint(1, 3)
     return {"kind": "globals_in_handover", "nprebuf": nprebuf, "at": rng.randrange(nprebuf), "nfirst": rng.choice([1, 1, 2]), "nloggers": rng.choice([1, 1, 2]),
             "nmsg": rng.choice([1, 2]), "setter": rng.choice(["self", "thread"]), "prior_globals": rng.random() < 0.4}
@@ -603,7 +609,8 @@ def late_sink_once(sc):
         log("pre%d" % k)
     late = [sink("late%d" % k) for k in range(sc["nlate"])]
     inside, added = threading.Event(), threading.Event()
-    trigger = "m%d" % sc["before"]
+    mid = "m%d" % sc["before"]
+    trigger = mid if sc.get("replay_trigger") is None else "pre%d" % sc["replay_trigger"]
     tapes["first0"] = []
 
     def primary(m):
@@ -642,10 +649,10 @@ def late_sink_once(sc):
     if sc["in_action"]:
         seq.append("d:act/started")
         with start_action(action_type="d:act"):
-            log(trigger)
+            log(mid)
             seq.append("d:act/succeeded")
     else:
-        log(trigger)
+        log(mid)
     for k in range(sc["after"]):
         log("m%d" % (sc["before"] + 1 + k))
     if th is not None:
@@ -656,12 +663,24 @@ def late_sink_once(sc):
 
 def judge_late_sink(sc, data, problems):
     seq, tapes, st = data["seq"], data["tapes"], data["state"]
+    if st["reg_at"] is None and sc.get("replay_trigger") is not None:
+        problems.append("add_destinations, called by the destination of the first add_destinations call while the start-up buffer was being replayed into it, "
+                        "did not return normally (that destination's tape: %s)" % (tapes.get("first0"),))
+        return
     if st["reg_at"] is None:
         problems.append("the message that triggers the registration was never delivered to the registered destination (tape %s)" % tapes.get("first0"))
         return
     want_late = seq[st["reg_at"]:]
     for k in range(sc["nlate"]):
         got = tapes.get("late%d" % k)
+        if sc.get("replay_trigger") is not None:
+            # registered during the replay of the start-up buffer: it is registered from then on (whether the rest of the replay
+            # reaches it is not judged), and nothing fails
+            rest = ["pre%d" % j for j in range(sc["replay_trigger"] + 1, sc["nprebuf"])]
+            if got[len(got) - len(want_late):] != want_late or any(x not in rest for x in got[:len(got) - len(want_late)]):
+                problems.append("destination late%d, registered by the first destination while the start-up buffer was being replayed into it, received %s; "
+                                "logged after its registration: %s" % (k, got, want_late))
+            continue
         if got != want_late:
             early = [x for x in got if x not in want_late]
             if early:
@@ -827,6 +846,8 @@ def part_indelivery(spec, res):
             judge_late_sink(sc, data, problems)
             if data["state"]["reg_at"] is not None:
                 c["registrations_completed_during_a_delivery"] = c.get("registrations_completed_during_a_delivery", 0) + 1
+                if sc.get("replay_trigger") is not None:
+                    c["registrations_completed_during_the_replay_of_the_buffer"] = c.get("registrations_completed_during_the_replay_of_the_buffer", 0) + 1
                 if data["state"]["registered_when_triggered"] == 1:
                     c["registrations_completed_inside_the_only_destination"] = c.get("registrations_completed_inside_the_only_destination", 0) + 1
                 res["nontrivial"].append(h(sc))
